@@ -73,6 +73,7 @@ type Parser struct {
 	state        int8
 	chunked      bool
 	chunkExt     bool
+	noBody       bool // 1xx/204/304 response: ends with its header section (RFC 7230 3.3.3 rule 1)
 	isClient     bool
 	headerExists bool
 }
@@ -315,6 +316,7 @@ UPGRADER:
 					return err
 				}
 				p.statusCode = code
+				p.noBody = code/100 == 1 || code == http.StatusNoContent || code == http.StatusNotModified
 				p.nextState(stateStatusBefore)
 				continue
 			}
@@ -385,6 +387,10 @@ UPGRADER:
 				err = p.parseContentLength()
 				if err != nil {
 					return err
+				}
+				if p.noBody {
+					p.chunked = false
+					p.contentLength = 0
 				}
 
 				p.Processor.OnContentLength(p, p.contentLength)
@@ -850,6 +856,7 @@ func (p *Parser) parseTrailer() error {
 func (p *Parser) handleMessage() {
 	p.Processor.OnComplete(p)
 	p.chunked = false
+	p.noBody = false
 	p.header = nil
 	p.trailer = nil
 
